@@ -245,7 +245,7 @@ def fi_stmt(fi, node):
 def check_cache_coherence(ck, cm):
     R = "C05.R4"
     c06.check_replace_on_put(ck, cm, R)
-    ck.expected[R] = 4
+    ck.expected[R] = 3
     # memoize writes through on every non-read-only path, before the store can fail half-way
     fa = FA(ck, BACKEND_BASE + ".memoize")
     puts = _field_calls(fa, "_memory_cache", "put")
